@@ -50,6 +50,12 @@ pub(crate) static mut DEALLOC_CALLS: u32 = 0;
 pub(crate) static mut DEC_STRONG_CALLS: u32 = 0;
 pub(crate) static mut DEC_WEAK_CALLS: u32 = 0;
 
+/// The five fields of an object's count word, for the L2 harnesses (strong.rs / weak.rs cannot name
+/// the private `state` field).
+pub(crate) unsafe fn peek<T>(p: *const RcInner<T>) -> (u32, u32, bool, bool, u32) {
+    let s = State::from_raw(rd(&(*p).state));
+    (s.strong(), s.weak(), s.destructed(), s.weaked(), s.epoch())
+}
 const RANGE: u32 = 1 << 28; // A-RANGE
 /// Interference budget B of the stutter lemma (DESIGN 2.5): quick 2, thorough 3.
 pub(crate) fn budget() -> u32 { match option_env!("VERIF_BUDGET") { Some("3") => 3, Some("1") => 1, _ => 2 } }
